@@ -97,6 +97,23 @@ func VerifIndexFileRead(idx Index, s Store) func(dest []byte, off int64) ([]byte
 	}
 }
 
+// VerifIndexFileOpen creates the file node of an index mount and returns a function that opens a new handle on that
+// node (what the FUSE bridge does for every open(2)) and returns the handle's read function.
+func VerifIndexFileOpen(idx Index, s Store) func() func(dest []byte, off int64) ([]byte, int) {
+	n := &indexFile{idx: idx, store: s}
+	return func() func(dest []byte, off int64) ([]byte, int) {
+		fh, _, _ := n.Open(nil, 0)
+		return func(dest []byte, off int64) ([]byte, int) {
+			res, errno := n.Read(nil, fh, dest, off)
+			if errno != 0 {
+				return nil, int(errno)
+			}
+			b, _ := res.Bytes(make([]byte, len(dest)))
+			return b, 0
+		}
+	}
+}
+
 // VerifSparseMountRead creates the node of a sparse-file mount (NewSparseMountFS) and returns the read function
 // of a new handle on its file, the function that saves its state, and a function opening further handles.
 func VerifSparseFileRead(sf *SparseFile) (func(dest []byte, off int64) ([]byte, int), error) {
